@@ -328,6 +328,27 @@ def check_state(ctx):
     ctx.floor(R, n, 6)
 
 
+def check_pool(ctx, cg, reach):
+    R = "C13-POOL"
+    ctx.rule(R, "the processing pool belongs to the caller: on sampler paths it is only ever used through .map() (and the .size attribute) - "
+                "never closed, terminated, joined or entered as a context manager, so a failed call leaves the same TheJoker usable.")
+    n = 0
+    for key in sorted(reach):
+        fn = cg.funcs[key]
+        for node in A.walk_local(fn):
+            if isinstance(node, ast.Call) and isinstance(node.func, ast.Attribute) and canon(node.func.value) in ("pool", "self.pool"):
+                n += 1
+                ctx.check(R, node, "pool use `%s` in %s" % (A.unparse(node.func), key[1]), node.func.attr in ("map",),
+                          "calls pool.%s(): shuts down or alters the caller's pool, so later calls on the same TheJoker fail" % node.func.attr,
+                          key="pool:%s:%s" % (key[1], node.func.attr))
+            if isinstance(node, (ast.With, ast.AsyncWith)):
+                for it in node.items:
+                    if canon(it.context_expr) in ("pool", "self.pool"):
+                        n += 1
+                        ctx.violate(R, node, "`with pool` in %s" % key[1], "entering the pool as a context manager closes it on exit", key="pool-with:" + key[1])
+    ctx.floor(R, n, 1)
+
+
 def run(ctx):
     cg = CallGraph(ctx.prog)
     for e in ENTRY:
@@ -338,6 +359,7 @@ def run(ctx):
     check_ro(ctx, cg, reach)
     check_write(ctx, cg, reach)
     check_state(ctx)
+    check_pool(ctx, cg, reach)
     ctx.notes.append({"call_sites_resolved": cg.resolved, "call_sites_external": cg.external})
     ctx.assume("tables.open_file(mode='r') and h5py.File(mode='r') never modify the file; os.unlink removes it")
     ctx.assume("exceptions raised inside pool workers are re-raised by pool.map in the parent (schwimmbad / multiprocessing contract)")
